@@ -927,9 +927,12 @@ func (h *handler1) handleMqttSn(ctx context.Context, pkt snPkts.Packet) error {
 	case *snPkts1.Disconnect:
 		if snPkt.Duration == 0 {
 			h.stopSleepPinger()
+			// Must be set before the broker gets DISCONNECT: the broker closes
+			// the connection at once and the client, which disconnects
+			// itself, must not get the DISCONNECT of a broken session.
+			h.setState(util.StateDisconnected)
 			mqPkt := mqPkts.NewControlPacket(mqPkts.Disconnect).(*mqPkts.DisconnectPacket)
 			h.mqttSend(mqPkt)
-			h.setState(util.StateDisconnected)
 			m3 := snPkts1.NewDisconnect(0)
 			if err := h.snSend(m3); err != nil {
 				return err
